@@ -59,16 +59,29 @@ where
         _ => 1,
     });
     // Literals that do not fit are parse errors, not panics.
+    // A hexadecimal literal is a 64-bit pattern; a decimal literal is a value, and the sign belongs
+    // to it: -9223372036854775808 is in range although 9223372036854775808 is not.
     let hex = string("0x").with(many1(hex_digit())).and_then(|x: String| {
         u64::from_str_radix(&x, 16)
-            .map(|v| v as i64)
+            .map(|v| (true, v))
             .map_err(|_| StreamErrorFor::<I>::message_static_message("integer literal out of range"))
     });
     let dec = many1(digit()).and_then(|x: String| {
-        x.parse::<i64>()
+        x.parse::<u64>()
+            .map(|v| (false, v))
             .map_err(|_| StreamErrorFor::<I>::message_static_message("integer literal out of range"))
     });
-    (sign, attempt(hex).or(dec)).map(|(s, x): (i64, i64)| x.wrapping_mul(s))
+    (sign, attempt(hex).or(dec)).and_then(|(s, (is_hex, v)): (i64, (bool, u64))| {
+        if is_hex {
+            Ok((v as i64).wrapping_mul(s))
+        } else if s < 0 && v <= 1 << 63 {
+            Ok((v as i64).wrapping_neg())
+        } else if s > 0 && v <= i64::MAX as u64 {
+            Ok(v as i64)
+        } else {
+            Err(StreamErrorFor::<I>::message_static_message("integer literal out of range"))
+        }
+    })
 }
 
 fn register<I>() -> impl Parser<I, Output = i64>
